@@ -41,3 +41,7 @@ def total_seconds_of(d):
 
 def date_of_ordinal(o):
     return _dt.datetime.fromordinal(o)
+
+
+def date_with(o, sec):
+    return _dt.datetime.fromordinal(o) + _dt.timedelta(seconds=sec)
